@@ -36,7 +36,7 @@ def CONST(text):
 
 
 def is_term(v):
-    return isinstance(v, tuple) and v and isinstance(v[0], str) and v[0] in ("in", "const", "op", "neg", "abs", "select", "cmp", "opaque", "not", "and", "or")
+    return isinstance(v, tuple) and v and isinstance(v[0], str) and v[0] in ("in", "const", "op", "neg", "abs", "select", "cmp", "opaque", "not", "and", "or", "fn")
 
 
 def _num(v):
@@ -82,6 +82,8 @@ def _norm(t):
     if k == "abs":
         s, b = _norm(t[1])
         return 1, ("abs", b)
+    if k == "fn":
+        return 1, ("fn", t[1]) + tuple(_norm(a) for a in t[2:])
     if k == "op":
         sym = t[1]
         if sym in ("+", "-"):
@@ -152,6 +154,8 @@ def show(t, depth=0):
         return f"-({show(t[1])})"
     if k == "abs":
         return f"|{show(t[1])}|"
+    if k == "fn":
+        return f"{t[1]}(" + ", ".join(show(a) for a in t[2:]) + ")"
     if k == "op":
         return f"({show(t[2])} {t[1]} {show(t[3])})"
     if k == "select":
@@ -248,6 +252,8 @@ class Extractor:
             return "fall", None
         if isinstance(st, ast.If):
             c = self.eval(st.test, env, rel, depth)
+            if isinstance(c, (int, float, str, type(None))) and not isinstance(c, bool):
+                c = bool(c)  # `if 0:` / `elif 1:` chains
             if not isinstance(c, bool):
                 raise Unsupported(f"line {st.lineno}: branch on symbolic condition `{norm_src(st.test)}`")
             return self.block(st.body if c else st.orelse, env, rel, depth)
@@ -422,6 +428,8 @@ class Extractor:
             if isinstance(c, bool):
                 return args[1] if c else args[2]
             return ("select", c, lift(args[1]), lift(args[2]))
+        if last in ("floor", "ceil", "sqrt", "round", "trunc") and fn.startswith("ctx") and len(args) == 1:
+            return ("fn", last, lift(args[0]))
         if last in ("eq", "ne", "lt", "le", "gt", "ge") and fn.startswith("ctx") and len(args) == 2:
             return ("cmp", {"eq": "==", "ne": "!=", "lt": "<", "le": "<=", "gt": ">", "ge": ">="}[last], lift(args[0]), lift(args[1]))
         if last == "constant" and fn.startswith("ctx"):
